@@ -106,6 +106,11 @@ def cases(tier):
                                 for ro in ('eigenfunctionevals', 'eigentensors'):
                                     yield {'k': 'amuset', 'd': d, 'd2': d2, 'm': m, 'ws': [list(ws[0]), list(ws[0])], 'b': bg, 'rw': rw,
                                            'rel': False, 'mr': 'inf', 'nev': 'inf', 'ro': ro, 'same': True}
+                            if bg:
+                                # the drift given explicitly as an all-zero array
+                                for nv in ('inf', 2):
+                                    yield {'k': 'amuset', 'd': d, 'd2': d2, 'm': m, 'ws': [list(w) for w in ws], 'b': 'zero', 'rw': rw,
+                                           'rel': False, 'mr': 'inf', 'nev': nv, 'ro': 'eigenfunctionevals'}
                             if d >= 2:
                                 # a user-defined basis function of two coordinates (mixed second derivatives x correlated diffusion)
                                 for ro in ('eigenfunctionevals', 'eigentensors'):
@@ -183,6 +188,8 @@ def run_case(case, seed):
     gscale = 1e-10 if case.get('var') == 'tiny' else 1.0
     sigma = np.sqrt(gscale) * rng.standard_normal((d, d2, m)); s0 = sigma.copy()
     b = gscale * rng.standard_normal((d, m)) if case['b'] else None
+    if case['b'] == 'zero':
+        b = np.zeros((d, m))            # a driftless diffusion given explicitly: still the non-reversible estimator
     b0 = None if b is None else b.copy()
     w = rng.uniform(0.5, 2.0, m) if case['rw'] else None
     w0 = None if w is None else w.copy()
@@ -250,6 +257,11 @@ def run_case(case, seed):
             scale = max(1.0, np.abs(lam).max())
             r.true(key + ':eigenvalues', max(abs(ev[i] - lam[match[i]]) for i in range(kk)) <= 1e-6 * cond * scale,
                    'eigenvalues %s vs dense %s' % (np.round(ev, 6), np.round(lam, 6)))
+            if nev != np.inf and kk < k:
+                # which eigenvalues are kept: the leading ones, i.e. those with the largest real parts
+                dre = np.sort(np.real(lam))[::-1]
+                if dre[kk - 1] - dre[kk] > 1e-6 * scale:
+                    r.close(key + ':leading-eigenvalues', np.sort(np.real(ev))[::-1], dre[:kk], 1e-6 * cond * scale, 'num_eigvals=%d of %d' % (kk, k))
             r.true(key + ':ranks', list(ranks)[0] == 1 and list(ranks)[-1] == 1 and list(ranks)[-2] == k, 'ranks %s (dense rank %d)' % (ranks, k))
             gaps_ok = k == 1 or np.min(np.abs(lam[:, None] - lam[None, :]) + 1e3 * np.eye(k)) > 1e-4
             if gaps_ok and np.max(np.abs(np.imag(lam))) < 1e-9:
